@@ -2641,13 +2641,14 @@ def recognisers(ctx, mir, stats):
 # C14: Stream::write must use the complete-or-error primitive
 # --------------------------------------------------------------------------
 LINK_NATIVE = _native("verif_replay_link_write_patterns", "src/model/link.rs", """
-        // a transport that accepts at most `cap` bytes per call, accepts nothing at call `zero_at`, and fails at call `fail_at`
-        struct T { out: Vec<u8>, cap: usize, calls: usize, zero_at: usize, fail_at: usize }
+        // a transport that accepts at most `cap` bytes per call, accepts nothing at call `zero_at`, and fails once at call `fail_at` with the given error kind
+        use std::io::ErrorKind;
+        struct T { out: Vec<u8>, cap: usize, calls: usize, zero_at: usize, fail_at: usize, kind: ErrorKind }
         impl Read for T { fn read(&mut self, _b: &mut [u8]) -> std::io::Result<usize> { Ok(0) } }
         impl Write for T {
             fn write(&mut self, b: &[u8]) -> std::io::Result<usize> {
                 let c = self.calls; self.calls += 1;
-                if c == self.fail_at { return Err(std::io::Error::new(std::io::ErrorKind::BrokenPipe, "injected")); }
+                if c == self.fail_at { return Err(std::io::Error::new(self.kind, "injected")); }
                 if c == self.zero_at { return Ok(0); }
                 let n = std::cmp::min(self.cap, b.len());
                 self.out.extend_from_slice(&b[..n]);
@@ -2656,13 +2657,18 @@ LINK_NATIVE = _native("verif_replay_link_write_patterns", "src/model/link.rs", "
             fn flush(&mut self) -> std::io::Result<()> { Ok(()) }
         }
         let msg: Vec<u8> = (0u8..23).collect();
+        for kind in [ErrorKind::BrokenPipe, ErrorKind::WouldBlock, ErrorKind::TimedOut, ErrorKind::ConnectionReset, ErrorKind::Other].iter() {
         for cap in 1..25 { for zero_at in [usize::MAX, 0, 1, 2, 5].iter() { for fail_at in [usize::MAX, 0, 1, 2, 3, 7, 22].iter() {
-            let mut l = Link::new(Stream::Raw(T { out: vec![], cap, calls: 0, zero_at: *zero_at, fail_at: *fail_at }));
+            let mut l = Link::new(Stream::Raw(T { out: vec![], cap, calls: 0, zero_at: *zero_at, fail_at: *fail_at, kind: *kind }));
             let r = l.write(&msg);
             if let Stream::Raw(t) = &l.stream {
                 if r.is_ok() { assert_eq!(t.out, msg, "Ok but bytes missing (cap {}, zero_at {}, fail_at {})", cap, zero_at, fail_at); }
+                // whatever happens, the stream holds a prefix of the message: nothing is sent twice, nothing out of order
+                assert!(t.out.len() <= msg.len() && t.out[..] == msg[..t.out.len()], "the stream holds {:?}, which is not a prefix of the message ({:?} at call {}, cap {})", t.out, kind, fail_at, cap);
+                // a transport error that the stream reported is not swallowed
+                if t.calls > *fail_at { assert!(r.is_err(), "the transport failed with {:?} at call {} and Link::write returned Ok", kind, fail_at); }
             }
-        } } }""")
+        } } } }""")
 
 
 def stream_write_all(ctx, mir, stats):
